@@ -122,7 +122,7 @@ impl<'a> Gen<'a> {
                             rty: format!("&'a [{}]", inner.rty),
                             to_v: format!("V::List(@R@.iter().map(|{x}| {}).collect())", inner.to_v(&x)),
                             from_v: format!(
-                                "a.keep(@V@.as_list().iter().map(|{x}| {}).collect::<Vec<_>>()).as_slice()",
+                                "a.keep(rt::mk_vec(@V@.as_list().iter().map(|{x}| {}))).as_slice()",
                                 inner.from_v(&x)
                             ),
                         })
@@ -176,13 +176,13 @@ impl<'a> Gen<'a> {
                 Ok(self.scalar("char", "V::Char(*@R@ as u32)", "@V@.as_char()"))
             }
             Ty::String => match seg_name {
-                "String" => Ok(self.scalar("String", "V::Str((*@R@).to_string())", "@V@.as_str().to_string()")),
+                "String" => Ok(self.scalar("String", "V::Str((*@R@).to_string())", "rt::mk_string(@V@.as_str())")),
                 "Vec" => {
                     let (_, args) = seg.unwrap();
                     if args.len() != 1 || show(&args[0]) != "u8" {
                         return Err(format!("`{}` for string", show(rt)));
                     }
-                    Ok(self.scalar("Vec<u8>", "V::from_bytes(&@R@[..])", "@V@.as_str().as_bytes().to_vec()"))
+                    Ok(self.scalar("Vec<u8>", "V::from_bytes(&@R@[..])", "rt::mk_bytes(@V@.as_str().as_bytes())"))
                 }
                 _ => Err(format!("Rust type `{}` for string", show(rt))),
             },
@@ -195,7 +195,7 @@ impl<'a> Gen<'a> {
                     rty: format!("Vec<{}>", inner.rty),
                     to_v: format!("V::List(@R@.iter().map(|{x}| {}).collect())", inner.to_v(&x)),
                     from_v: format!(
-                        "@V@.as_list().iter().map(|{x}| {}).collect::<Vec<_>>()",
+                        "rt::mk_vec(@V@.as_list().iter().map(|{x}| {}))",
                         inner.from_v(&x)
                     ),
                 })
